@@ -35,7 +35,8 @@ class Ctx:
 
 def build_module(ctx, kids, flav):
     """Module number len(ctx.mods): ports vss, d[2], q, bundle ports bp, bq; one instance (or array) per entry of `kids`.
-    `flav` bits: 1 = first child is an InstanceArray of 2; 2 = rotate the bundle-connection styles; 4 = wide array data."""
+    `flav` bits: 1 = first child is an InstanceArray of 2; 2 = rotate the bundle-connection styles; 4 = wide array data;
+    8 = an only child leaves its bq / q ports unconnected (NoConn)."""
     B = ctx.Bnd
     mid = len(ctx.mods)
     m = h.Module(name=f"M{mid}")
@@ -62,7 +63,9 @@ def build_module(ctx, kids, flav):
         else:
             bp = h.AnonymousBundle(x=m.sx, y=m.d, sub=m.bi.sub)
         conns = dict(vss=m.vss, d=m.d, bp=bp)
-        if n == 1:
+        if n == 1 and flav & 8:
+            conns.update(bq=h.NoConn(), q=h.NoConn())        # replace_noconn reads the child's bundle-level io
+        elif n == 1:
             conns.update(bq=m.bq, q=m.q)
         elif j > 0:
             prev = getattr(m, f"u{j-1}")
